@@ -10,7 +10,8 @@ RULE = ('the complete table of (operation, state in which it can complete withou
         'receiver), buffered get, close (open / closed), iteration steps over buffered items; channel put (with / without consumer), '
         'close; borrow / claim / nested borrow with resources available and their release (normal, and while an exception / until-interrupt / cancellation leaves the block); increase / decrease / set; transfers of '
         'zero volume, on an infinite pipe, on an UnboundedPipe; interval(0) / delay(0); collect of nothing / of instant activities; '
-        'first(count=0) / of an instant activity; leaving an empty scope, a scope whose children are done, an until block - each next '
+        'first(count=0) / of an instant activity; leaving an empty scope, a scope whose children are done, whose child has just failed, '
+        'whose late child was cancelled before its first turn, an until block - each next '
         'to 1 and 2 competing runnable activities, with the actor spawned first and last. Oracle: the operation must span at least '
         'two activations of the FIFO-monitored loop (or advance the clock) and every live competitor must get a turn in between; '
         'non-trivial = every row (each is a state in which the operation could complete immediately)')
@@ -96,6 +97,15 @@ def rows():
     ops('first', [], [['FIRST', ['k3'], [[['D', 1], ['RETURN', 1]]], 0, []], ['FIRST', ['k4', 'k5'], [[['RETURN', 1]], [['RETURN', 2]]], 1, []]])
     row('scope-exit-empty', [['SCOPE', 'a', []]], [((0,), 'scope-exit')])
     row('scope-exit-done-children', [['SCOPE', 'a', [['DO', 't', []], ['DO', 'u', [['INSTANT']]], ['D', 1]]]], [((0,), 'scope-exit')])
+    # the block ends regularly right after a child has failed (the parent's own wake-up was queued ahead of the scope's signal)
+    row('scope-exit-after-child-failure', [['TRY', [['SCOPE', 'a', [['DO', 't', [['D', 1], ['RAISE', 'KeyError', 'f']]], ['INSTANT'], ['D', 1]]]]]],
+        [((0, 0), 'scope-exit')])
+    # a child spawned while the scope is shutting down and cancelled before its first turn
+    for i, (pre, body) in enumerate([([['INSTANT']], []), ([], []), ([['AWAITSCOPE', 'a']], [['INSTANT']]), ([['AWAITSCOPE', 'a']], [['D', 1]]),
+                                     ([['INSTANT']], [['INSTANT']])]):
+        row('scope-exit-late-cancelled-child-%d' % i,
+            [['SCOPE', 'a', [['DO', 'sp', pre + [['DO', 'v', [['D', 1]], {'scope': 'a'}], ['CANCEL', 'v', 'x']]]] + body]],
+            [((0,), 'scope-exit')])
     row('until-exit', [['UNTIL', 'a', ['ETERNITY'], [['INSTANT']]], ['UNTIL', 'b', ['DELAY', 5], []]],
         [((0,), 'scope-exit'), ((1,), 'scope-exit')])
     return T
